@@ -129,7 +129,7 @@ def canon(xf, items):
 def probe_keys(real, pool):
     ks = list(pool)
     for it in real.project():
-        for k in (it["s"], it["s"].swapcase(), it["o"]):
+        for k in (it["s"], it["s"].swapcase(), it["o"], it["s"] + "  ", " " + it["s"]):
             if isinstance(k, str) and k not in ks:
                 ks.append(k)
     return ks
